@@ -28,7 +28,7 @@ LEVEL_NOTE = 'Values from a seeded alphabet; domain (A,B,C) with sizes (2,3,2); 
 ASSUMPTIONS = ['RDA/IG store log(mu + 1e-100); 1e-100 is not counted as mass']
 
 ITERS = [1, 2, 3, 10, 50]
-LAST_DEGENERATE = False
+LAST_RUNAWAY = False
 TOTALS = [1.0, 37.5, None]
 
 
@@ -44,7 +44,7 @@ def all_structs():
 def jobs(tier, seed):
     st = all_structs()
     idx = range(len(st)) if tier == 'thorough' else sorted(set([0, 1, 2] + list(range(3, len(st), 5))))
-    return [{'si': si, 'seed': seed} for si in idx]
+    return [{'si': si, 'seed': seed} for si in idx] + [{'witness': 'F13', 'seed': seed}]
 
 
 def coherence_failures(model, attrs, sizes, maxlen=2, tol_r=1e-7, tol_a=1e-9):
@@ -60,6 +60,8 @@ def coherence_failures(model, attrs, sizes, maxlen=2, tol_r=1e-7, tol_a=1e-9):
     allv = np.concatenate([np.asarray(pots[cl].values, dtype=float).flatten() for cl in model.cliques])
     fin = allv[np.isfinite(allv)]
     Smag = float(np.abs(fin).max()) if fin.size else 0.0
+    global LAST_RUNAWAY
+    LAST_RUNAWAY = Smag > 1e9   # parameters beyond ~1e9 cannot be evaluated to 1e-6 any more (known finding F13)
     slack = min(1e-6, 32 * 2.2e-16 * Smag)
     tol_r, tol_a = tol_r + slack, tol_a + slack
     if hasattr(model, 'marginals'):
@@ -102,10 +104,6 @@ def run_one(si, total, engine, iters, zero, kind, seed):
     if zero and struct:
         cl = max(struct, key=len)
         zeros = {tuple(cl): [tuple([0] * len(cl))]}
-    # degenerate input: the zero leaves ONE live cell in its clique and nothing else is measured, so the loss
-    # is constant in the parameters (see known finding F13)
-    global LAST_DEGENERATE
-    LAST_DEGENERATE = bool(zeros) and int(np.prod([sizes[attrs.index(a)] for a in cl])) == 2 and all(set(c) <= set(cl) for c in struct)
     eng = FactoredInference(Domain(attrs, sizes), iters=iters, structural_zeros=zeros)
     with M.quiet():
         model = eng.estimate(prob.fresh_measurements(), total=total, engine=engine)
@@ -119,6 +117,16 @@ def run_one(si, total, engine, iters, zero, kind, seed):
 
 def run_job(job):
     acc = Acc()
+    if job.get('witness') == 'F13':
+        # fixed, seed-independent witness of known finding F13 (vertex optimum, 100 iterations, total 1)
+        case = {'si': 3, 'total': 1.0, 'engine': 'MD', 'iters': 100, 'zero': False, 'kind': 'noisy', 'seed': 1}
+        struct, fails = run_one(3, 1.0, 'MD', 100, False, 'noisy', 1)
+        acc.case(dict(case, struct=struct))
+        acc.outcome('witness-F13:%s' % ('reproduced' if fails else 'absent'))
+        for kd in sorted({k for k, _ in fails}):
+            acc.violate(dict(case, struct=[list(c) for c in struct]), {'kind': kd, 'engine': 'MD', 'empty': False, 'param_runaway': LAST_RUNAWAY},
+                        'structure %r %s: %s' % (struct, case, '; '.join(m for k, m in fails if k == kd)[:600]))
+        return acc
     si = job['si']
     for total, engine, iters, zero, kind in itertools.product(TOTALS, ['MD', 'RDA', 'IG'], ITERS, [False, True], ['noisy', 'uniform']):
         if kind == 'uniform' and (zero or iters not in (1, 10)):
@@ -130,7 +138,7 @@ def run_job(job):
         acc.case(dict(case, struct=struct), nontrivial=len(struct) >= 2)
         acc.outcome('%s:%s' % (engine, 'ok' if not fails else 'FAIL'))
         for kd in sorted({k for k, _ in fails}):
-            acc.violate(dict(case, struct=[list(c) for c in struct]), {'kind': kd, 'engine': engine, 'empty': len(struct) == 0, 'loss_constant_single_live_cell': LAST_DEGENERATE},
+            acc.violate(dict(case, struct=[list(c) for c in struct]), {'kind': kd, 'engine': engine, 'empty': len(struct) == 0, 'param_runaway': LAST_RUNAWAY},
                         'structure %r %s: %s' % (struct, case, '; '.join(m for k, m in fails if k == kd)[:600]))
     acc.sample(dict(case, struct=[list(c) for c in struct]))
     return acc
